@@ -23,10 +23,20 @@ def assess(params, loads, ram=True, raj=True):
         return A.perform_fkm_nonlinear_assessment(params.copy(), loads, calculate_P_RAM=ram, calculate_P_RAJ=raj)
 
 
-def batch_series(seq, ratios):
+def batch_series(seq, ratios, layout='load-step-by-load-step'):
     import pandas as pd
+    if layout == 'point-by-point':
+        # what pd.concat of per-point histories gives: the same index, the rows listed point by point
+        return pd.concat({i: pd.Series([float(v) * r for v in seq], index=pd.Index(range(len(seq)), name='load_step')) for i, r in enumerate(ratios)},
+                         names=['node_id', 'load_step']).swaplevel()
     idx = pd.MultiIndex.from_product([range(len(seq)), range(len(ratios))], names=['load_step', 'node_id'])
     return pd.Series([float(v) * r for v in seq for r in ratios], index=idx)
+
+
+# frame-guard exemption (pv/guards.py): the assessment appends a diagnostic entry 'notes' to the parameter Series it is handed (it returns a NEW Series with the results);
+# the entries the caller passed must still be unchanged, which the guard keeps checking
+GUARD_EXEMPT = {'assessment_nonlinear_standard.perform_fkm_nonlinear_assessment:assessment_parameters':
+                ('may-add-entries', "perform_fkm_nonlinear_assessment adds the entry 'notes' to the caller's parameter Series by design; no clause of C10 is about it")}
 
 
 KEYS_RAM = ['P_RAM_lifetime_n_cycles', 'P_RAM_is_life_infinite']
@@ -95,22 +105,40 @@ def b_batch(ctx):
     if ctx.tier == 'thorough':
         seqs += [[100, 300, -300, 200, -100, 250, -250], [200, -200, 100, -100, 300, -300, 50, -50]]
         ratio_sets += [(0.5, 1.0, 2.0), (1.0, 1.0, 1.0), (1.3, 0.7)]
-    ctx.bound = f"{len(seqs)} load sequences x point sets with load ratios {ratio_sets}, Steel R_m=600, per-point maxima, P_RAM and P_RAJ"
+    ctx.bound = f"{len(seqs)} load sequences x point sets with load ratios {ratio_sets}, Steel R_m=600, per-point maxima, P_RAM and P_RAJ; rows listed load step by load step, two ratio sets also point by point"
     ctx.rule = "non-trivial: points with different ratios; distinct by (sequence, ratios)"
-    for seq, ratios in itertools.product(seqs, ratio_sets):
+    # the rows of the batch listed load step by load step (MultiIndex.from_product) and point by point (pd.concat of per-point histories); a history with
+    # non-reversal samples (added after seed C10-d took every n-th row as the first point's history)
+    seqs = seqs + [[100, 40, -200, -50, 100, -250, 200, 120, 0, 200, -200]]
+    for seq, ratios, layout in itertools.product(seqs, ratio_sets, ('load-step-by-load-step', 'point-by-point')):
         if not ctx.mine():
             continue
+        if layout == 'point-by-point' and ratios not in ((1.0, 1.0), (1.0, 0.6, 1.5)):
+            continue
         prm = base_params()
-        ctx.case(len(set(ratios)) > 1, key=(tuple(seq), ratios))
-        multi = assess(prm, batch_series(seq, ratios))
+        ctx.case(len(set(ratios)) > 1, key=(tuple(seq), ratios, layout))
+        multi = assess(prm, batch_series(seq, ratios, layout))
+        ltag = ''
         import pandas as pd
+        if layout == 'point-by-point':
+            # the order in which the rows are listed is irrelevant: same results as the batch listed load step by load step (compared with each other, so that the
+            # known batch-dependence findings - which both layouts share - do not enter)
+            ref = assess(prm, batch_series(seq, ratios))
+            for i, r in enumerate(ratios):
+                for fam, keys in (('P_RAM', KEYS_RAM), ('P_RAJ', KEYS_RAJ)):
+                    a, b = float(val(multi, keys[0], i)), float(val(ref, keys[0], i))
+                    ia, ib = bool(val(multi, keys[1], i)), bool(val(ref, keys[1], i))
+                    if ia != ib or not (a == b or abs(a - b) <= 1e-9 * max(abs(a), abs(b))):
+                        ctx.fail(f'C10:batch-row-order:{fam}', f'{fam}: point {i} (ratio {r}) of {seq} x {ratios}: lifetime {a} / infinite {ia} with the rows listed point by point, {b} / {ib} listed load step by load step',
+                                 {'sequence': seq, 'ratios': list(ratios)})
+            continue
         for i, r in enumerate(ratios):
             single = assess(prm, pd.Series([float(v) * r for v in seq]))
             for fam, keys in (('P_RAM', KEYS_RAM), ('P_RAJ', KEYS_RAJ)):
                 a, b = float(val(multi, keys[0], i)), float(val(single, keys[0]))
                 ia, ib = bool(val(multi, keys[1], i)), bool(val(single, keys[1]))
                 if ia != ib or not (a == b or abs(a - b) <= 1e-6 * max(abs(a), abs(b))):
-                    same = 'equal-ratios' if len(set(ratios)) == 1 else 'different-ratios'
+                    same = ('equal-ratios' if len(set(ratios)) == 1 else 'different-ratios') + ltag
                     ctx.fail(f'C10:batch:{fam}:{same}', f'{fam}: point {i} (ratio {r}) of {seq} x {ratios}: lifetime {a} / infinite {ia} in the batch, {b} / {ib} alone',
                              "import pandas as pd\nimport pylife.strength.fkm_nonlinear.assessment_nonlinear_standard as A\n"
                              f"p = pd.Series({dict(base_params())!r})\nseq = {seq!r}; ratios = {list(ratios)!r}\n"
